@@ -236,6 +236,9 @@ def check_config(config: dict) -> None:
     if quantis and lambda_minus_one:
         raise TOMLConfigError("Cannot run quantis with lambda_minus_one!")
 
+    if not isinstance(n_workers, int):
+        raise TOMLConfigError("The number of workers must be an integer!")
+
     if n_workers > n_ens - 1:
         raise TOMLConfigError("Too many workers defined!")
 
